@@ -24,7 +24,7 @@ func init() {
 			"a gate's failure edge ends in a return carrying a provably non-empty error list without passing queryCache.Add (the `err.(*gqlerror.Error)` !ok edges are pruned only after lemma L-gqlerr is " +
 			"discharged on gqlparser's source); (success-needs-validate) every nil-error return of parseQuery is dominated by a cache hit or by len(Validate(schema, doc))==0 for the returned doc; " +
 			"(cache-after-validate) Cache.Add on the query cache is called only from parseQuery under that same guard; OperationContext.Doc/Operation are assigned only from parseQuery / ForName; " +
-			"(no-global-rule-mutation) nothing reachable from a request root mutates gqlparser's package-level validator rule set.",
+			"(no-global-rule-mutation) nothing reachable from a request root mutates gqlparser's package-level validator rule set. (rule-swap-paired) every validation rule package executor removes from gqlparser's global rule set has its WithoutSuggestions replacement referenced, and vice versa.",
 		NotDecided: "extension ordering and exactly-once invocation of hooks (value-level property of a fold over user extensions); behaviour under concurrent requests beyond the effect rule",
 		Assumptions: []string{
 			"GraphExecutor implementations other than executor.Executor are user code",
